@@ -1,4 +1,5 @@
 import Proofs.C06
+import Proofs.TieBasis
 #print axioms PV.Proofs.C06.reset_set_eq
 #print axioms PV.Proofs.C06.set_differs
 #print axioms PV.Proofs.C06.acceptScore_some
@@ -21,3 +22,7 @@ import Proofs.C06
 #print axioms PV.Proofs.C06.C06_result
 #print axioms PV.Proofs.C06.C06_tracked_score_is_score_of_result
 #print axioms PV.Proofs.C06.reset_after_set
+#print axioms PV.Proofs.Tie.declared_translated_basis
+#print axioms PV.Proofs.Tie.value_range_tie
+#print axioms PV.Proofs.Tie.clamped_tie
+#print axioms PV.Proofs.Tie.sample_tie
